@@ -131,6 +131,12 @@ def dscHooked (c : Cfg) (E : Ecu) (k : Kind) (top : Nat) (s : Sess) (st : St) : 
   | .pos => (hookReqs top c.postHook { st1 with cur := s }, a)
   | _ => (st1, a)
 
+/-- how `set_session_with_hooks_handling` calls `ECU.set_session`: (skip_hooks, use_db) of the first (plain) and of the
+    second (hooked) attempt, and these are the only `set_session` calls of the scanner.  `use_db = false`: a negative
+    answer is taken as it is - the `session_transition` rows that earlier scans of the same target left in the database
+    are never replayed.  That is why `dscOnce` / `dscHooked` are one exchange each and the model has no database. -/
+def setSessionCalls : List (Bool × Bool) := [(true, false), (false, false)]
+
 /-- `set_session_with_hooks_handling` -/
 def dsc (c : Cfg) (E : Ecu) (k : Kind) (top : Nat) (s : Sess) (st : St) : St × Ans :=
   let r1 := dscOnce c E k top s st
